@@ -94,15 +94,16 @@ def inverse_root(stat, p, ridge, clamp=False):
   float32 statistics of a singular Gram matrix can have slightly negative
   eigenvalues.  The eigendecomposition routine is documented to clamp the
   regularised eigenvalues at the ridge (clamp=True); the Newton routine works on
-  the matrix as it is, so there is no reference unless stat + ridge I is
-  positive definite (returns None).
+  the matrix as it is.  In both cases there is no reference unless stat + ridge I
+  is positive definite (returns None): a ridge below the rounding noise of the
+  float32 statistics is outside the property's domain.
   """
   w, v = np.linalg.eigh((stat + stat.T) / 2)
+  if w[0] + ridge <= 0:
+    return None          # regularised matrix not positive definite: the root is not defined
   if clamp:
     w = np.maximum(w, 0.0)
   w = w + ridge
-  if w[0] <= 0:
-    return None
   return (v * w ** (-1.0 / p)) @ v.T
 
 
